@@ -4,18 +4,23 @@
            the packet count and clock offset where the previous one stopped
    output: ( (code k (call point ...)) ... )  code 0 Found / 1 Exceeded / 2 NotFound / 3 OutOfFuel
    With a 4th element (table universes)
-     table part = ( (mode expand_verified fuel start) empty-bits strats ver-sids sym-sids
+     table part = ( (mode expand_verified fuel start sort-stores) empty-bits strats ver-sids sym-sids
                     inferral-sids initial-sids (expansion-set ...) (is_verified answer ...) )
            (strats as in Searcher/Run.v)
    the same script is ALSO run on the packet-level state machine of Searcher/Step.v and the
    output is ( old-output  ( init-events
                              ((code k (call point ...) (sevent ...)) ...)     code 4 = crashed
-                             (status unused-answers classes emptiness tried symexp infexp) ) )
+                             (status unused-answers classes emptiness tried symexp infexp
+                              rule-keys eqv-rule-keys already-empty queue) ) )
+     the last four = the rest of the members of the state (Step.members): the keys of the two rule
+     stores in store order, RuleDBForest._already_empty (sorted), and the queue: (working next_level
+     curr_level inferral_expanded initial_expanded ignore queue_sizes staging), sets sorted
      sevent = (0 label (sid ...) inferral (event ...)) | (1) queue dry | (2) dead
      event  = the searcher-level events of the C04 trace: ruledb.add, classdb.set_empty,
               classqueue.add / set_not_inferrable / set_stop_yielding (tags 0 1 2 3 4 of Run.v) *)
 From Coq Require Import ZArith List Bool.
 From CSS Require Import Base.Sx Base.PyList ClassDB.Model Searcher.Model Searcher.Run Searcher.Slicing Searcher.Step.
+From CSS Require Queue.Model.
 Import ListNotations.
 Open Scope Z_scope.
 
@@ -63,6 +68,32 @@ Definition enc_outcome2 (x : outcome2 * list Z * list sevent) : sx :=
                     end in
   L [I code; I k; of_Zs pts; L (map enc_sevent es)].
 
+Definition enc_key (k : Z * list Z) : sx := L [I (fst k); of_Zs (snd k)].
+(* RecomputingDict keeps its keys in a set: the stores are then compared sorted (flag 5 of the header) *)
+Fixpoint lex_leb (a b : list Z) : bool :=
+  match a, b with
+  | [], _ => true
+  | _ :: _, [] => false
+  | x :: a', y :: b' => if x <? y then true else if y <? x then false else lex_leb a' b'
+  end.
+Fixpoint key_insert (x : Z * list Z) (l : list (Z * list Z)) : list (Z * list Z) :=
+  match l with
+  | [] => [x]
+  | y :: t => if lex_leb (fst x :: snd x) (fst y :: snd y) then x :: l else y :: key_insert x t
+  end.
+Definition key_sort (l : list (Z * list Z)) : list (Z * list Z) := fold_right key_insert [] l.
+Definition enc_qpacket (p : Queue.Model.packet) : sx :=
+  L [I (Queue.Model.p_label p); of_Zs (Queue.Model.p_strats p); of_bool (Queue.Model.p_inf p)].
+Definition enc_queue (q : Queue.Model.queue) : sx :=
+  L [ of_Zs (Queue.Model.working q);
+      L (map (fun x : Z * Z => L [I (fst x); I (snd x)]) (Queue.Model.next_level q));
+      L (map of_Zs (Queue.Model.curr_level q));
+      of_Zs (isort (dedup (Queue.Model.inferral_expanded q)));
+      of_Zs (isort (dedup (Queue.Model.initial_expanded q)));
+      of_Zs (isort (dedup (Queue.Model.ignore q)));
+      of_Zs (Queue.Model.queue_sizes q);
+      L (map enc_qpacket (Queue.Model.staging q)) ].
+
 Definition dec_call (c : sx) : call :=
   let m := sx_Z (sx_nth c 0) in
   (if m <? 0 then None else Some m, sx_Zs (sx_nth c 1), map sx_bool (sx_list (sx_nth c 2))).
@@ -85,7 +116,11 @@ Definition run_steps (mult : Z) (calls : list sx) (tp : sx) : sx :=
   L [ enc_events ev0; L (map enc_outcome2 outs);
       L [ I (enc_status (stat c)); of_nat (length (answers c));
           of_Zs (classes (cdb c)); L (map enc_empty (empties (cdb c)));
-          of_Zs (isort (tried c)); of_Zs (isort (dedup (symexp c))); of_Zs (isort (infexp c)) ] ].
+          of_Zs (isort (tried c)); of_Zs (isort (dedup (symexp c))); of_Zs (isort (infexp c));
+          L (map enc_key (if g 4%nat =? 0 then rstore c else key_sort (rstore c)));
+          L (map enc_key (if g 4%nat =? 0 then estore c else key_sort (estore c)));
+          of_Zs (isort (dedup (already c)));
+          enc_queue (que s1) ] ].
 
 Definition run_c17 (inp : sx) : sx :=
   (* a call flagged (4th field) as ended by an exception of the expansion is outside the control-flow model *)
